@@ -54,7 +54,7 @@ func htmlSafe(s string, allowedTags []string) (bool, string) {
 
 var c03Modes = []string{"", "true", "false", "contextual", "deprecated-contextual"}
 
-var c03Paths = []string{"direct", "let-value", "let-content", "param-value", "param-content", "msg-placeholder", "data-all", "nested-content", "print-after-call", "print-in-loop-around-call", "msg-twin-placeholders"}
+var c03Paths = []string{"direct", "let-value", "let-content", "param-value", "param-content", "msg-placeholder", "data-all", "nested-content", "print-after-call", "print-in-loop-around-call", "msg-twin-placeholders", "operator-operand"}
 
 type c03Chain []ref.Dir
 
@@ -176,6 +176,11 @@ func c03Program(path string, nsMode, tMode, cNsMode, cTMode string, ch c03Chain)
 		callee.Body = []ref.Node{&ref.Raw{Text: "("}, pr(&ref.DataRef{Name: "p"}, nil), &ref.Raw{Text: ")"}}
 		main.Body = []ref.Node{lb, &ref.Foreach{Var: "i", List: &ref.ListLit{Items: []ref.Expr{&ref.Lit{V: ref.Int(1)}, &ref.Lit{V: ref.Int(2)}}}, Keyword: "foreach",
 			Body: []ref.Node{pr(v, ch), &ref.CallT{Target: "nb.c", NameSrc: "nb.c", Params: []ref.Param{{Name: "p", E: &ref.DataRef{Name: "i"}}}}}}, rb}
+	case "operator-operand":
+		// the value as an operand of the operators that hand an operand through (?: and the ternary) or, in the
+		// generated JavaScript, may do so (and / or): whatever reaches the output is escaped like any other value
+		main.Body = []ref.Node{lb, pr(&ref.Binary{Op: "?:", L: v, R: v}, ch), &ref.Raw{Text: ";"}, pr(&ref.Tern{C: &ref.Lit{V: ref.Bool(true)}, A: v, B: &ref.Lit{V: ref.Str("no")}}, ch), &ref.Raw{Text: ";"},
+			pr(&ref.Binary{Op: "or", L: v, R: v}, ch), &ref.Raw{Text: ";"}, pr(&ref.Binary{Op: "and", L: v, R: v}, ch), &ref.Raw{Text: ";"}, pr(&ref.Binary{Op: "or", L: &ref.Lit{V: ref.Bool(false)}, R: v}, ch), rb}
 	case "nested-content":
 		// content block inside a content block inside a call: three levels of buffering
 		callee.Params = []ref.ParamDecl{{Name: "p"}}
@@ -395,7 +400,7 @@ func init() {
 				}
 				// the same predicate on what the generated JavaScript returns for the same program and value (every
 				// 32nd case; values JSON can carry; under node only)
-				if i%32 == 3 && utf8.ValidString(valString(val)) && !strings.HasPrefix(path, "msg-") {
+				if (i%32 == 3 || (path == "operator-operand" && i%4 == 3)) && utf8.ValidString(valString(val)) && !strings.HasPrefix(path, "msg-") {
 					if r := c03JSPass(ctx, files, d, val, path, ch, tags, cd); r != nil {
 						return *r
 					}
